@@ -91,6 +91,14 @@ def pyGet {β : Type} (xs : List β) (i : Int) : Option β :=
   else if (-i).toNat ≤ xs.length then xs[xs.length - (-i).toNat]?
   else none
 
+/-- `[xs[i] for i in idx]` -/
+def getAll {β : Type} (xs : List β) : List Int → Option (List β)
+  | [] => some []
+  | i :: is =>
+    match pyGet xs i, getAll xs is with
+    | some x, some r => some (x :: r)
+    | _, _ => none
+
 def defaultLabel (i : Nat) : String := "$H_{" ++ toString i ++ "}$"
 
 def infLabel : String := "$\\infty$"
@@ -112,7 +120,7 @@ def labelList (n : Nat) : Labels → List String
 def select {β : Type} (xs : List β) (labels : List String) :
     Option (List Int) → Except Err (List β × List String)
   | some (i :: is) =>
-    match (i :: is).mapM (pyGet xs), (i :: is).mapM (pyGet labels) with
+    match getAll xs (i :: is), getAll labels (i :: is) with
     | some ds, some ls => .ok (ds, ls)
     | _, _ => .error .index
   | _ => .ok (xs, labels)
@@ -126,7 +134,7 @@ def selectOld {β : Type} (xs : List β) (labels : Labels) :
       | .default => (List.range xs.length).map defaultLabel
       | .one s => s.toList.map String.singleton
       | .many ls => ls
-    match (i :: is).mapM (pyGet xs), (i :: is).mapM (pyGet ls0) with
+    match getAll xs (i :: is), getAll ls0 (i :: is) with
     | some ds, some ls => .ok (ds, ls)
     | _, _ => .error .index
   | _ => .ok (xs, labelList xs.length labels)
